@@ -24,6 +24,7 @@ pub struct Utxo {
   pub hot: bool,
 }
 
+#[derive(Clone)]
 pub struct Gen {
   pub rng: Rng,
   pub utxos: Vec<Utxo>,
